@@ -101,3 +101,74 @@ def incomparable_assertion(f, **kw):
         return row.get("out") == "other" and "AssertionError" in row.get("msg", "") and "are incomparable" in row.get("msg", "")
     out = (f.result or {}).get("outcome") or {}
     return out.get("r") == "AssertionError" and "are incomparable" in out.get("msg", "")
+
+
+def _slots(obs):
+    return {(x["de"], x["da"], x["src"], x["se"]): x["val"] for x in (obs or {}).get("inp", [])}
+
+
+def _diff_slots(f):
+    d = (f.extra or {}).get("diff")
+    if not d or d["canonical"] is None or d["variant"] is None or d["canonical"]["t"] != d["variant"]["t"]:
+        return None
+    a, b = _slots(d["canonical"]), _slots(d["variant"])
+    return d["sim"], {k: (a.get(k), b.get(k)) for k in set(a) | set(b) if a.get(k) != b.get(k)}
+
+
+def d16_schedule_dependent_visibility(f, **kw):
+    """D16 as seen by C04: with simulators in groups, whether a value produced in the same integer
+    time step is already visible depends on the execution order (the data plane ignores sub-steps).
+    Signature: inputs (not step times) differ; neither run violates the integer-time data oracle; and
+    either the reference monitor found one of the runs tiered-inconsistent-but-integer-consistent, or
+    every differing slot is fed by a weak connection / a connection between different groups."""
+    if f.clause != "C04_inputs_differ":
+        return False
+    ex = f.extra or {}
+    if "C03_inputs" in ex.get("ref_clauses_variant", []) or "C03_inputs" in ex.get("ref_clauses_canonical", []):
+        return False
+    scn = f.case["scn"]
+    gp = {s["sid"]: s["gpath"] for s in scn["sims"]}
+    if not any(gp.values()):
+        return False
+    ds = _diff_slots(f)
+    if not ds or not ds[1]:
+        return False
+    sig = "C03_inputs__sig_integer_time_data_plane"
+    if sig in ex.get("ref_clauses_variant", []) or sig in ex.get("ref_clauses_canonical", []):
+        return True  # the reference monitor itself found one run tiered-inconsistent but integer-consistent
+    sim, slots = ds
+    for (de, da, src, se) in slots:
+        feeding = [c for c in scn["conns"] if c["dst"] == sim and c["src"] == src and c["da"] == da and c["de"] == de and c["se"] == se]
+        if not feeding or not all(c["weak"] or gp[c["src"]] != gp[c["dst"]] for c in feeding):
+            return False
+    return True
+
+
+def cache_initial_data_leak(f, **kw):
+    """D20: cache=True stores initial data on the SOURCE side, so another connection of the same source
+    attribute that declares no initial data receives it; with cache=False that slot holds the None
+    placeholder.  Signature: runs differ in the cache flag; every differing slot has no declared
+    initial data, one value is None and the other is the initial-data token of that source attribute."""
+    if f.clause != "C04_inputs_differ":
+        return False
+    ex = f.extra or {}
+    cache_v = f.case["scn"].get("cache", True)
+    cache_c = (ex.get("canonical_flags") or {}).get("cache", True)
+    if cache_v == cache_c:
+        return False
+    ds = _diff_slots(f)
+    if not ds or not ds[1]:
+        return False
+    sim, slots = ds
+    scn = f.case["scn"]
+    for (de, da, src, se), (a, b) in slots.items():
+        feeding = [c for c in scn["conns"] if c["dst"] == sim and c["src"] == src and c["da"] == da and c["de"] == de and c["se"] == se]
+        if not feeding or any(c["init"] for c in feeding):
+            return False
+        vals = {a, b}
+        if "None" not in vals:
+            return False
+        other = (vals - {"None"}).pop() if len(vals) == 2 else None
+        if other is None or not any(other == f"init.{src}.{c['sa']}" for c in feeding):
+            return False
+    return True
